@@ -125,6 +125,20 @@ pub fn expand_ts(src: &str) -> Result<Result<TokenStream, Vec<String>>, Xp> {
     }
 }
 
+/// same as `expand_ts` but from an already built token stream (lets the harness inject None-delimited groups)
+pub fn expand_tokens(ts: TokenStream) -> Result<Result<TokenStream, Vec<String>>, Xp> {
+    let di = match quiet_catch(|| synx::parse2::<synx::DeriveInput>(ts)) {
+        Ok(Ok(di)) => di,
+        Ok(Err(e)) => return Err(Xp::NotAnItem(e.to_string())),
+        Err((msg, loc)) => return Err(Xp::NotAnItem(format!("parser panicked: {} @ {}", msg, loc))),
+    };
+    match quiet_catch(|| o2o_impl::expand::derive(&di)) {
+        Ok(Ok(ts)) => Ok(Ok(ts)),
+        Ok(Err(e)) => Ok(Err(e.into_iter().map(|x| x.to_string()).collect())),
+        Err((msg, loc)) => Err(Xp::Panic { msg, loc }),
+    }
+}
+
 pub fn expand(src: &str) -> Xp {
     match expand_ts(src) {
         Ok(Ok(ts)) => Xp::Ok(canon(&ts)),
